@@ -310,6 +310,98 @@ func (e *Exec) selectPC(extra []*Term, mode int) []*Term {
 	return out
 }
 
+// decodeAxioms: length relation of base64 decoding (3 bytes per 4 characters at most).
+func decodeAxioms(asserts []*Term) []*Term {
+	seen := map[string]bool{}
+	var out []*Term
+	var walk func(t *Term)
+	walk = func(t *Term) {
+		if strings.HasPrefix(t.op, "uf:b64dec_") {
+			k := t.String()
+			if !seen[k] {
+				seen[k] = true
+				out = append(out, mkLe(mkMul(mkLen(t), mkInt(4)), mkMul(mkLen(t.args[0]), mkInt(3))))
+			}
+		}
+		for _, a := range t.args {
+			walk(a)
+		}
+	}
+	for _, a := range asserts {
+		walk(a)
+	}
+	return out
+}
+
+var injectiveUF = map[string]bool{"HMAC": true, "SHA256": true, "SHA1": true, "hex_enc": true,
+	"b64enc_url": true, "b64enc_rawurl": true, "b64enc_std": true, "b64enc_rawstd": true,
+	"Enc": true, "pack": true}
+
+// idealAxioms instantiates collision-freeness of the ideal (injective)
+// functions on the applications that occur in the query, and the alphabet of
+// base64 outputs.
+func idealAxioms(asserts []*Term) []*Term {
+	apps := map[string][]*Term{}
+	seen := map[string]bool{}
+	var walk func(t *Term)
+	walk = func(t *Term) {
+		if strings.HasPrefix(t.op, "uf:") && injectiveUF[t.name] {
+			k := t.String()
+			if !seen[k] {
+				seen[k] = true
+				apps[t.name] = append(apps[t.name], t)
+			}
+		}
+		for _, a := range t.args {
+			walk(a)
+		}
+	}
+	for _, a := range asserts {
+		walk(a)
+	}
+	var out []*Term
+	for _, name := range sortedKeys(apps) {
+		as := apps[name]
+		for i := 0; i < len(as); i++ {
+			if name == "HMAC" || name == "SHA256" || name == "SHA1" {
+				out = append(out, mkGe(mkLen(as[i]), mkInt(1)))
+			}
+			if strings.HasPrefix(name, "b64enc_") {
+				// what the encoder produced decodes, to the same bytes
+				kind := strings.TrimPrefix(name, "b64enc_")
+				out = append(out, mkUF("b64ok_"+kind, SBool, as[i]),
+					mkEq(mkUF("b64dec_"+kind, SStr, as[i]), as[i].args[0]))
+			}
+			if strings.HasPrefix(name, "b64enc_") {
+				x := as[i].args[0]
+				// 4*ceil(n/3) (padded) or ceil(4n/3) (raw): at least 4n/3, empty iff the input is empty
+				out = append(out, mkGe(mkMul(mkLen(as[i]), mkInt(3)), mkMul(mkLen(x), mkInt(4))),
+					mkLe(mkLen(as[i]), mkAdd(mkMul(mkLen(x), mkInt(2)), mkInt(4))),
+					mkEq(mkEq(mkLen(as[i]), mkInt(0)), mkEq(mkLen(x), mkInt(0))))
+			}
+			if strings.HasPrefix(name, "b64enc_") {
+				if cs := charSet(as[i]); cs != nil {
+					var parts []*Term
+					for c := 0; c < 256; c++ {
+						if cs.has(byte(c)) {
+							parts = append(parts, reLit(string([]byte{byte(c)})))
+						}
+					}
+					out = append(out, mkInRe(as[i], reStar(reUnion(parts...))))
+				}
+			}
+			for j := i + 1; j < len(as); j++ {
+				var eqs []*Term
+				for k := range as[i].args {
+					eqs = append(eqs, mkEq(as[i].args[k], as[j].args[k]))
+				}
+				out = append(out, mkImplies(mkEq(as[i], as[j]), mkAnd(eqs...)))
+			}
+		}
+	}
+	return out
+}
+
 func hasStrings(ts []*Term) bool {
 	var walk func(t *Term) bool
 	walk = func(t *Term) bool {
@@ -342,6 +434,8 @@ func hasStrings(ts []*Term) bool {
 //	  (short limit), and as the only stage when B is not applicable.
 func (e *Exec) solveOpen(asserts []*Term, declare []*Term, upgrade bool) string {
 	e.modelCtx = nil
+	asserts = append(asserts, idealAxioms(asserts)...)
+	asserts = append(asserts, decodeAxioms(asserts)...)
 	strs := hasStrings(asserts)
 	stageA := func(limit int) string {
 		e.solver.Push()
